@@ -19,7 +19,9 @@ recalculation `e` of the history (`trace … = post ++ e :: pre`, `pre` = the ea
 The clause "switches on when the level reaches ActivationLevel" is **false** for the code when
 `ActivationLevel < DeactivationLevel`, a configuration the documentation forbids and validation
 accepts: `full_statement_refuted`; it holds under `DeactivationLevel ≤ ActivationLevel`:
-`on_when_reaches_partial`.
+`on_when_reaches_partial`; and it holds at full strength for the repaired variant of the model
+(`fx = true`: `UpdateFromConfig` clamps the deactivation level to the activation level):
+`on_when_reaches`.  All other theorems hold for both variants (`fx` arbitrary).
 -/
 namespace Refinery.Props.C15
 open Refinery Refinery.Model.StressRelief Refinery.Lemmas.StressRelief
@@ -61,12 +63,12 @@ theorem rms_none (ls : List Nat) (h : (ls.filter (· ≠ 0)).length = 0) : rms l
 `max(loc, RMS)`, where RMS is the (floored, `rms_floor`) root mean square of the non-zero levels
 among the most recent report of every node — this node's own `loc` included — that are at most
 `PeerEntryTimeout` old; a report exactly `PeerEntryTimeout` old still counts. -/
-theorem level_formula (ops : List Op) (loc : Nat) :
-    ((recalc (run T ops) loc).2).cluster = rms ((Spec.run ops).recent T loc) ∧
-    ((recalc (run T ops) loc).2).level = max (rms ((Spec.run ops).recent T loc)) loc ∧
-    ((recalc (run T ops) loc).1).level = ((recalc (run T ops) loc).2).level := by
-  obtain ⟨h1, h2, h3, h4⟩ := invS_run timeout_nonneg ops
-  have hc : ((recalc (run T ops) loc).2).cluster = rms ((Spec.run ops).recent T loc) := by
+theorem level_formula (ops : List Op) (fx : Bool) (loc : Nat) :
+    ((recalc (run T ops fx) loc).2).cluster = rms ((Spec.run ops).recent T loc) ∧
+    ((recalc (run T ops fx) loc).2).level = max (rms ((Spec.run ops).recent T loc)) loc ∧
+    ((recalc (run T ops fx) loc).1).level = ((recalc (run T ops fx) loc).2).level := by
+  obtain ⟨h1, h2, h3, h4⟩ := invS_run timeout_nonneg ops fx
+  have hc : ((recalc (run T ops fx) loc).2).cluster = rms ((Spec.run ops).recent T loc) := by
     simp only [recalc, Spec.recent]
     rw [h4, h1, h2, ← keep_put _ _ _ _ (by simp [fresh]; have := timeout_nonneg; omega),
       keep_keep_fresh _ _ _ h3]
@@ -91,9 +93,9 @@ def OpBounded (B : Nat) : Op → Prop
 /-- **level_bounded** — if every peer report and every own level of the history is at most `B`
 (the property's `B = 100`), every recalculation acts on a level of at most `B`, and so is the
 cluster level. -/
-theorem level_bounded (B : Nat) (ops : List Op) (hops : ∀ o ∈ ops, OpBounded B o) :
-    AllEv (fun e _ => e.level ≤ B ∧ e.cluster ≤ B) (trace T ops) := by
-  refine (events_all T (fun s _ => ∀ x ∈ s.reports, x.2.1 ≤ B) (OpBounded B) _ ?_ ?_ ?_ ops hops).2
+theorem level_bounded (B : Nat) (ops : List Op) (fx : Bool) (hops : ∀ o ∈ ops, OpBounded B o) :
+    AllEv (fun e _ => e.level ≤ B ∧ e.cluster ≤ B) (trace T ops fx) := by
+  refine (events_all T fx (fun s _ => ∀ x ∈ s.reports, x.2.1 ≤ B) (OpBounded B) _ ?_ ?_ ?_ ops hops).2
   · intro x hx; simp [init] at hx
   · intro s evs o ho hi
     cases o with
@@ -138,10 +140,10 @@ theorem level_bounded_needs_reports :
 
 /-- **never_always** — every recalculation made in `never` mode leaves relief off and every
 recalculation made in `always` mode leaves it on, whatever the levels, thresholds and history. -/
-theorem never_always (ops : List Op) :
+theorem never_always (ops : List Op) (fx : Bool) :
     AllEv (fun e _ => (e.cfg.mode = .never → e.after = false) ∧ (e.cfg.mode = .always → e.after = true))
-      (trace T ops) := by
-  refine (events_all T (fun _ _ => True) (fun _ => True) _ trivial (fun _ _ _ _ _ => trivial) ?_ ops
+      (trace T ops fx) := by
+  refine (events_all T fx (fun _ _ => True) (fun _ => True) _ trivial (fun _ _ _ _ _ => trivial) ?_ ops
     (fun _ _ => trivial)).2
   intro s evs o e _ _ he
   obtain ⟨loc, rfl, rfl⟩ := step_ev he
@@ -150,9 +152,9 @@ theorem never_always (ops : List Op) :
 /-- Relief changes only inside recalculations: the state a recalculation starts from is the one
 the previous recalculation left (off before the first), whatever happened in between
 (reloads, reports, clock). -/
-theorem before_eq_prev_after (ops : List Op) :
-    AllEv (fun e pre => e.before = match pre with | [] => false | p :: _ => p.after) (trace T ops) := by
-  refine (events_all T (fun s evs => s.stressed = match evs with | [] => false | p :: _ => p.after)
+theorem before_eq_prev_after (ops : List Op) (fx : Bool) :
+    AllEv (fun e pre => e.before = match pre with | [] => false | p :: _ => p.after) (trace T ops fx) := by
+  refine (events_all T fx (fun s evs => s.stressed = match evs with | [] => false | p :: _ => p.after)
     (fun _ => True) _ rfl ?_ ?_ ops (fun _ _ => trivial)).2
   · intro s evs o _ hi
     cases o <;> simp [stepE, step, recalc] <;> exact hi
@@ -161,10 +163,13 @@ theorem before_eq_prev_after (ops : List Op) :
     exact hi
 
 /-- The full-strength activation clause of the property: in monitor mode, a recalculation whose
-level has reached the activation level leaves relief on — for **all** configurations. -/
-def FullStatement : Prop :=
-  ∀ (ops : List Op) (post : List Ev) (e : Ev) (pre : List Ev), trace T ops = post ++ e :: pre →
+level has reached the activation level leaves relief on — for **all** configurations.
+`fx = false`: the code as it is; `fx = true`: `UpdateFromConfig` repaired (`clampCfg`). -/
+def FullStatementOf (fx : Bool) : Prop :=
+  ∀ (ops : List Op) (post : List Ev) (e : Ev) (pre : List Ev), trace T ops fx = post ++ e :: pre →
     e.cfg.mode = .monitor → e.cfg.act ≤ e.level → e.after = true
+
+def FullStatement : Prop := FullStatementOf false
 
 /-- Refuted by the code as it is: with `ActivationLevel = 50 < DeactivationLevel = 80` (accepted by
 configuration validation) a level of 60 switches relief on and off again inside the same `Recalc`
@@ -176,13 +181,32 @@ theorem full_statement_refuted : ¬ FullStatement := by
       cluster := 60, level := 60, before := false, after := false } [] (by decide) rfl (by decide)
   simp at this
 
+/-- **on_when_reaches (full statement, repaired variant)** — once `UpdateFromConfig` replaces a
+deactivation level above the activation level by the activation level, every monitor-mode
+recalculation whose level is at or above the configured activation level leaves relief on, for
+all configurations and histories (the clamp leaves mode, activation level and minimum duration
+untouched: `Lemmas.StressRelief.clampCfg_act`). -/
+theorem on_when_reaches : FullStatementOf true := by
+  intro ops
+  refine (events_all T true InvF (fun _ => True)
+    (fun e _ => e.cfg.mode = .monitor → e.cfg.act ≤ e.level → e.after = true)
+    ⟨rfl, Nat.le_refl _⟩ (fun s evs o _ hi => invF_step s evs o hi) ?_ ops (fun _ _ => trivial)).2
+  intro s evs o e _ hi he
+  obtain ⟨loc, rfl, rfl⟩ := step_ev he
+  intro hm hl
+  exact machine_on _ _ _ _ _ hm hi.2 hl
+
+/-- the same witness history on the repaired variant: relief comes on -/
+example : (trace T [.reload { mode := .monitor, act := 50, deact := 80, minDur := 10000000000 }, .recalc 60] true).map
+    (fun e => (e.after, e.cfg.deact)) = [(true, 50)] := by decide
+
 /-- **on_when_reaches (partial)** — in monitor mode, with `DeactivationLevel ≤ ActivationLevel` in
 force at that recalculation, every recalculation whose level is at or above the activation level
 leaves relief on — whatever the history (holds pending or not, reloads mid-episode). -/
-theorem on_when_reaches_partial (ops : List Op) :
+theorem on_when_reaches_partial (ops : List Op) (fx : Bool) :
     AllEv (fun e _ => e.cfg.mode = .monitor → e.cfg.deact ≤ e.cfg.act → e.cfg.act ≤ e.level →
-      e.after = true) (trace T ops) := by
-  refine (events_all T (fun _ _ => True) (fun _ => True) _ trivial (fun _ _ _ _ _ => trivial) ?_ ops
+      e.after = true) (trace T ops fx) := by
+  refine (events_all T fx (fun _ _ => True) (fun _ => True) _ trivial (fun _ _ _ _ _ => trivial) ?_ ops
     (fun _ _ => trivial)).2
   intro s evs o e _ _ he
   obtain ⟨loc, rfl, rfl⟩ := step_ev he
@@ -196,10 +220,10 @@ level below the deactivation level, and strictly more than the minimum activatio
 passed since the last earlier monitor-mode recalculation that left relief on with the level at
 or above the deactivation level (threshold and duration as in force at that earlier
 recalculation).  No hypothesis on thresholds, modes or reloads. -/
-theorem off_only_if (ops : List Op) :
+theorem off_only_if (ops : List Op) (fx : Bool) :
     AllEv (fun e pre => e.cfg.mode = .monitor → e.before = true → e.after = false →
-      e.level < e.cfg.deact ∧ holdOver e.now (lastWhere aboveOn pre) = true) (trace T ops) := by
-  refine (events_all T InvH (fun _ => True) _ rfl (fun s evs o _ hi => invH_step s evs o hi) ?_ ops
+      e.level < e.cfg.deact ∧ holdOver e.now (lastWhere aboveOn pre) = true) (trace T ops fx) := by
+  refine (events_all T fx InvH (fun _ => True) _ rfl (fun s evs o _ hi => invH_step s evs o hi) ?_ ops
     (fun _ _ => trivial)).2
   intro s evs o e _ hi he
   obtain ⟨loc, rfl, rfl⟩ := step_ev he
@@ -213,12 +237,12 @@ theorem off_only_if (ops : List Op) :
 /-- **stays_on** — in monitor mode relief that is on stays on through every recalculation whose
 level is at or above the deactivation level, or that comes no later than the minimum duration
 after the last recalculation that left relief on at or above it. -/
-theorem stays_on (ops : List Op) :
+theorem stays_on (ops : List Op) (fx : Bool) :
     AllEv (fun e pre => e.cfg.mode = .monitor → e.before = true →
       (e.cfg.deact ≤ e.level ∨ holdOver e.now (lastWhere aboveOn pre) = false) → e.after = true)
-      (trace T ops) := by
+      (trace T ops fx) := by
   intro post e pre h hm hb hc
-  have := off_only_if ops post e pre h hm hb
+  have := off_only_if ops fx post e pre h hm hb
   cases ha : e.after with
   | true => rfl
   | false =>
@@ -229,10 +253,10 @@ theorem stays_on (ops : List Op) :
 
 /-- **off_when_due** (converse of `off_only_if`) — in monitor mode relief that is on goes off at
 the first recalculation whose level is below the deactivation level once the hold is over. -/
-theorem off_when_due (ops : List Op) :
+theorem off_when_due (ops : List Op) (fx : Bool) :
     AllEv (fun e pre => e.cfg.mode = .monitor → e.before = true → e.level < e.cfg.deact →
-      holdOver e.now (lastWhere aboveOn pre) = true → e.after = false) (trace T ops) := by
-  refine (events_all T InvH (fun _ => True) _ rfl (fun s evs o _ hi => invH_step s evs o hi) ?_ ops
+      holdOver e.now (lastWhere aboveOn pre) = true → e.after = false) (trace T ops fx) := by
+  refine (events_all T fx InvH (fun _ => True) _ rfl (fun s evs o _ hi => invH_step s evs o hi) ?_ ops
     (fun _ _ => trivial)).2
   intro s evs o e _ hi he
   obtain ⟨loc, rfl, rfl⟩ := step_ev he
@@ -248,11 +272,11 @@ relief state or mode: *any* earlier recalculation whose level was at or above th
 level then in force.  This needs, of every recalculation up to the one in question, that the
 mode was not `always` and that `DeactivationLevel ≤ ActivationLevel` in monitor mode
 (`…_needs_no_always`, `…_needs_order` show both are necessary). -/
-theorem off_only_if_any_level (ops : List Op) :
+theorem off_only_if_any_level (ops : List Op) (fx : Bool) :
     AllEv (fun e pre => (∀ e' ∈ e :: pre, Ordered e') → e.cfg.mode = .monitor → e.before = true →
       e.after = false →
-      e.level < e.cfg.deact ∧ holdOver e.now (lastWhere aboveAny pre) = true) (trace T ops) := by
-  refine (events_all T InvA (fun _ => True) _ ⟨rfl, fun _ _ => rfl⟩
+      e.level < e.cfg.deact ∧ holdOver e.now (lastWhere aboveAny pre) = true) (trace T ops fx) := by
+  refine (events_all T fx InvA (fun _ => True) _ ⟨rfl, fun _ _ => rfl⟩
     (fun s evs o _ hi => invA_step s evs o hi) ?_ ops (fun _ _ => trivial)).2
   intro s evs o e _ hi he
   obtain ⟨loc, rfl, rfl⟩ := step_ev he
